@@ -2,12 +2,18 @@
 """Generate /verif/MANIFEST.json from worlds.map (what is built) + props_meta.json (texts)."""
 import json, os, subprocess
 V = os.path.dirname(os.path.dirname(os.path.abspath(__file__)))
-meta = json.load(open(f"{V}/tools/props_meta.json"))
+import glob
+meta = {"_engines": {}}
+for f in sorted(glob.glob(f"{V}/tools/meta.d/*.json")):
+    d = json.load(open(f))
+    meta["_engines"].update(d.pop("_engines", {}))
+    meta.update(d)
 built = {}
-for line in open(f"{V}/worlds.map"):
-    if line.strip() and not line.startswith("#"):
-        p, crate, binname, world = line.split()
-        built[p] = (crate, binname, world)
+for f in sorted(glob.glob(f"{V}/worlds.d/*.map")):
+    for line in open(f):
+        if line.strip() and not line.startswith("#"):
+            p, crate, binname, world = line.split()
+            built[p] = (crate, binname, world)
 hooks = []
 try:
     out = subprocess.check_output(["git", "-C", "/repo", "log", "--format=%H %s"], text=True)
